@@ -194,7 +194,7 @@ def correspond(rng, tier, driver):
                 "(separate, next* incl. past the end, stop / resolver hook, double stop); after EVERY op compare "
                 "main code, line offset, section index, substitution depth, not_enough_sections (count, found) and "
                 "the section list itself between real pedal and Pedal.Sections.run; non-trivial = >=1 separator")
-    n = 250 if tier == "quick" else 6000
+    n = 2000 if tier == "quick" else 10000
     cases, reqs, index = [], [], []
     for _ in range(n):
         text, pattern = gen_file(rng)
@@ -410,7 +410,7 @@ def search(rng, tier, broken, corr):
                     "location and the traceback text; main code restored by stop_sections and by resolve()",
             "evaluations": 0, "distinct_nontrivial": 0, "samples": []}
     nt = set()
-    n = 150 if tier == "quick" else 4000
+    n = 1000 if tier == "quick" else 6000
     if broken:
         n *= 3
     for _ in range(n):
